@@ -164,6 +164,13 @@ def run(ctx):
             ops = [{"op": "ctor", "s": text}, {"op": "ctor", "s": text, "encoded": True}]
             if kw is not None:
                 ops.append({"op": "build", "kw": {k: (v if not isinstance(v, int) else {"t": "int", "v": str(v)}) for k, v in kw.items()}})
+                # the pre-encoded build route: the host as it is written in a URL (an IP literal WITH its brackets), everything else verbatim
+                from ..shapes import HOSTS as _SH
+
+                htext = next((ht for hl_, ht, hb in _SH if hl_ == lab[2]), None)
+                if htext and all(not isinstance(v, str) or (v.isascii() and " " not in v and "%" not in v) for v in kw.values()) and "%" not in htext:
+                    ekw = dict(kw, host=htext, encoded=True)
+                    ops.append({"op": "build", "kw": {k: (v if not isinstance(v, int) or isinstance(v, bool) else {"t": "int", "v": str(v)}) for k, v in ekw.items()}})
             for bop in ops:
                 for op in (bop, {"op": "mod", "base": bop, "m": "with_user", "args": [""]}, {"op": "mod", "base": bop, "m": "with_query", "args": [{"t": "dict", "v": [["k", "v"]]}]},
                            {"op": "div", "base": bop, "arg": "seg"}, {"op": "mod", "base": bop, "m": "with_suffix", "args": [".t.gz"]}, {"op": "mod", "base": bop, "m": "with_fragment", "args": [None]}):
